@@ -774,9 +774,10 @@ func (r *c11Repo) alphabet(level int) []c11Op {
 	if level >= 1 {
 		ops = append(ops, c11Op{c11Iter, "blob"}, c11Op{c11Iter, "commit"}, c11Op{c11Iter, "tree"}, c11Op{c11Iter, "tag"})
 	}
-	ops = append(ops, c11Op{c11Prefix, r.roles["packA-delta"][:2]}, c11Op{c11Prefix, r.roles["loose"][:4]})
+	// the empty prefix ("every object") and a one-byte prefix are in every tier: they take their own paths
+	ops = append(ops, c11Op{c11Prefix, r.roles["packA-delta"][:2]}, c11Op{c11Prefix, r.roles["loose"][:4]}, c11Op{c11Prefix, ""})
 	if level >= 1 {
-		ops = append(ops, c11Op{c11Prefix, r.roles["absent"]}, c11Op{c11Prefix, ""})
+		ops = append(ops, c11Op{c11Prefix, r.roles["absent"]})
 	}
 	return ops
 }
